@@ -259,12 +259,20 @@ fn symbolic(p: &Prog, pt: &[f32]) -> Result<Vec<[f32; 4]>, String> {
 }
 
 fn grads_at<F: Function<Trace = VmTrace>>(f: &F, inputs: &[Grad], nout: usize) -> Result<Vec<[i64; 4]>, String> {
-    let cols: Vec<Vec<Grad>> = inputs.iter().map(|g| vec![*g; 2]).collect();
+    // the same sample repeated n times, n rotating through short and very long slices (thousands of samples): every
+    // copy must come back, and all copies alike; the last one is what is judged
+    static CALLS: std::sync::atomic::AtomicUsize = std::sync::atomic::AtomicUsize::new(0);
+    let call = CALLS.fetch_add(1, std::sync::atomic::Ordering::Relaxed);
+    let n = if call % 64 == 63 { [1025usize, 4099, 2049][(call / 64) % 3] } else { [2usize, 3, 9, 17, 1, 8][call % 6] };
+    let cols: Vec<Vec<Grad>> = inputs.iter().map(|g| vec![*g; n]).collect();
     let o = grad_slice(f, &cols)?;
-    if o.len() != nout || o.iter().any(|c| c.len() != 2) {
+    if o.len() != nout || o.iter().any(|c| c.len() != n) {
         return Err("shape".into());
     }
-    Ok(o.iter().map(|c| gbits(&c[1])).collect())
+    if o.iter().any(|c| c.iter().any(|g| gbits(g) != gbits(&c[n - 1]))) {
+        return Err("copies of one sample differ".into());
+    }
+    Ok(o.iter().map(|c| gbits(&c[n - 1])).collect())
 }
 
 /// B: exact programs, expected duals recomputed by TLC in Integers
